@@ -14,6 +14,7 @@ import (
 	"context"
 	"encoding/hex"
 	"encoding/json"
+	"errors"
 	"flag"
 	"fmt"
 	"os"
@@ -114,6 +115,8 @@ type Op struct {
 	N       int
 	Rewind  bool
 	Entries []WLEntry
+	FaultK  int  // c02 fault twins: arm the node database to fail its k-th GetNode during this op (0 = no fault)
+	Faulted bool // recorded: the op returned the injected error and was retried
 }
 
 func (o Op) MarshalJSON() ([]byte, error) {
@@ -135,6 +138,10 @@ func (o Op) MarshalJSON() ([]byte, error) {
 		}
 		m["entries"] = es
 	}
+	if o.FaultK > 0 {
+		m["fault_k"] = o.FaultK
+		m["faulted"] = o.Faulted
+	}
 	return json.Marshal(m)
 }
 
@@ -146,6 +153,8 @@ func (o *Op) UnmarshalJSON(b []byte) error {
 		N       int       `json:"n"`
 		Rewind  bool      `json:"rewind"`
 		Entries []WLEntry `json:"entries"`
+		FaultK  int       `json:"fault_k"`
+		Faulted bool      `json:"faulted"`
 	}
 	if err := json.Unmarshal(b, &raw); err != nil {
 		return err
@@ -158,7 +167,7 @@ func (o *Op) UnmarshalJSON(b []byte) error {
 	if err != nil {
 		return err
 	}
-	*o = Op{K: raw.K, Key: nn(k), Val: nn(v), N: raw.N, Rewind: raw.Rewind, Entries: raw.Entries}
+	*o = Op{K: raw.K, Key: nn(k), Val: nn(v), N: raw.N, Rewind: raw.Rewind, Entries: raw.Entries, FaultK: raw.FaultK, Faulted: raw.Faulted}
 	return nil
 }
 
@@ -615,6 +624,43 @@ func debugStack() {
 	if os.Getenv("VERIF_MKVS_STACK") != "" {
 		os.Stderr.Write(debug.Stack())
 	}
+}
+
+// ---------- fault injection ----------
+
+var errInjected = errors.New("verif: injected node database read error")
+
+func isInjected(err error) bool {
+	return err != nil && (errors.Is(err, errInjected) || strings.Contains(err.Error(), errInjected.Error()))
+}
+
+// faultDB forwards everything to the real node database; when armed, the
+// k-th GetNode call (counted from arming) fails once with errInjected.
+type faultDB struct {
+	db.NodeDB
+	calls     int
+	countdown int
+	fired     bool
+}
+
+func (f *faultDB) GetNode(root node.Root, ptr *node.Pointer) (node.Node, error) {
+	f.calls++
+	if f.countdown > 0 {
+		f.countdown--
+		if f.countdown == 0 {
+			f.fired = true
+			return nil, errInjected
+		}
+	}
+	return f.NodeDB.GetNode(root, ptr)
+}
+
+func (f *faultDB) arm(k int) { f.countdown, f.fired = k, false }
+
+// disarm reports whether the fault fired since arming.
+func (f *faultDB) disarm() bool {
+	f.countdown = 0
+	return f.fired
 }
 
 // quietly runs f, swallowing a panic (used for cleanup after the implementation panicked).
